@@ -350,6 +350,11 @@ fn configs(tier: Tier) -> Vec<(Vec<&'static str>, CmdSpec)> {
             if !picks.iter().any(|p| p.len() == 2 && p.contains(&names[i]) && p.contains(&names[j])) {
                 out.push(mk(&[names[i], names[j]]));
             }
+            // quick: the triples that contain flatten_help (it renders every subcommand's names
+            // into the parent's help, so naming state left by earlier parses becomes visible)
+            if tier == Tier::Quick && names[i] != "flatten_help" && names[j] != "flatten_help" {
+                out.push(mk(&[names[i], names[j], "flatten_help"]));
+            }
             if tier == Tier::Thorough {
                 for k in j + 1..names.len() {
                     let (_, c) = mk(&[names[i]]);
